@@ -21,7 +21,8 @@ def replay(harness, playback_text):
         shutil.copytree(os.path.join(VERIF, 'kani'), dst, ignore=shutil.ignore_patterns('target'))
         repo = os.environ.get('VERIF_REPO', '/repo')
         ct = os.path.join(dst, 'Cargo.toml')
-        open(ct, 'w').write(open(ct).read().replace('/repo/etherparse', repo + '/etherparse'))
+        txt = open(ct).read().replace('/repo/etherparse', repo + '/etherparse')
+        open(ct, 'w').write(txt)
         shutil.copy(os.path.join(repo, 'Cargo.lock'), os.path.join(dst, 'Cargo.lock'))
         src = os.path.join(dst, 'src', module + '.rs')
         code = re.sub(r'(?m)^```\s*$', '', playback_text)
